@@ -29,6 +29,10 @@ ASAN_ENV = {"ASAN_OPTIONS": "abort_on_error=1:detect_leaks=0:allocator_may_retur
             "UBSAN_OPTIONS": "print_stacktrace=0:halt_on_error=0:report_error_type=1"}
 
 
+# recursive operators over files of ~100 tokens need a deeper Java stack than the default
+TLC_JAVA = "-Xmx8g -XX:+UseParallelGC -Xss256m"
+
+
 def use_asan():
     return os.environ.get("VERIF_C09_NOASAN", "") == ""
 
@@ -90,7 +94,7 @@ def choose_bases(ck, classes, level, nbase, rng, workers):
     vlib.write_ndjson(pp, picks)
     mcfg = os.path.join(w, "mc.cfg")
     open(mcfg, "w").write("SPECIFICATION Spec\nCONSTANTS\n Level = %d\nCHECK_DEADLOCK FALSE\n" % level)
-    res = vlib.run_tlc("MC_NeutralFile", mcfg, workers=workers, env={"PICKS": pp}, timeout=3000)
+    res = vlib.run_tlc("MC_NeutralFile", mcfg, workers=workers, env={"PICKS": pp, "JAVA_TOOL_OPTIONS": TLC_JAVA}, timeout=3000)
     if res.violation:
         raise Broken("MC_NeutralFile reports an error:\n" + res.violation)
     by = collections.defaultdict(list)
@@ -121,7 +125,7 @@ def fault_model(ck, picks, level, workers):
     vlib.write_ndjson(pp, picks)
     mcfg = os.path.join(w, "mcf.cfg")
     open(mcfg, "w").write("SPECIFICATION Spec\nCONSTANTS\n Level = %d\nCHECK_DEADLOCK FALSE\n" % level)
-    res = vlib.run_tlc("MC_NeutralFault", mcfg, workers=workers, env={"PICKS": pp}, timeout=6000, heap="8g")
+    res = vlib.run_tlc("MC_NeutralFault", mcfg, workers=workers, env={"PICKS": pp, "JAVA_TOOL_OPTIONS": TLC_JAVA}, timeout=6000, heap="8g")
     if res.violation:
         raise Broken("MC_NeutralFault reports an error:\n" + res.violation)
     bases = {e["base"]: e for e in res.emitted if e["kind"] == "base"}
